@@ -147,9 +147,17 @@ one_pair (const unsigned char key[8], const unsigned char blk[8], int junk, int 
   gather (back, b64);
   if (memcmp (back, blk, 8)) viol ("decrypt", "%s: decrypt(encrypt(x)) != x key=%s block=%s", cls, hk, hb);
 
-  /* re-entrant variant on its own object; must agree with the static one */
+  /* re-entrant variant on its own object; must agree with the static one.  The object may be recycled
+     memory: crypt.h asks callers to clear only 'initialized' (and 'reserved') before the first use.  */
   spread (k64, key, junk);
   spread (b64r, blk, junk);
+  if (junk || interleave)
+    {
+      unsigned char *raw = (unsigned char *) cd_a;
+      for (size_t q = 0; q < sizeof *cd_a; q++) raw[q] = (unsigned char) (rnd () | 1);
+      cd_a->initialized = 0;
+      memset (cd_a->reserved, 0, sizeof cd_a->reserved);
+    }
   p_setkey_r (k64, cd_a);
   p_encrypt_r (b64r, 0, cd_a);
   n_cmp++;
